@@ -73,6 +73,15 @@ ENDPOINT_FORMS = {
     "dataonly-messages": ("/messages/?session_id=s5", None),
     "dataonly-mcp": ("http://h.test/mcp?session_id=s6", None),
     "url-https": ("https://other.test/messages/?session_id=s7&k=%7B%7D", None),
+    # absolute URLs on another origin than the event stream: host, port, scheme, spelling of the host
+    "url-port": ("http://h.test:8081/messages/?session_id=p1", None),
+    "url-scheme": ("https://h.test/messages/?session_id=p2", None),
+    "url-same": ("http://h.test/messages/?session_id=p3", None),
+    "url-localhost": ("http://localhost:8000/messages/?session_id=p4", "http://127.0.0.1:8000"),
+    "url-loopback": ("http://127.0.0.1:8000/messages/?session_id=p5", "http://localhost:8000"),
+    "url-case": ("http://H.TEST/messages/?session_id=p6", None),
+    "url-default-port": ("http://h.test:80/messages/?session_id=p7", None),
+    "url-userinfo-path": ("http://other.test:9/a/b/messages/?session_id=p8#frag", "https://h.test/base"),
     # an announcement that announces nothing: not an announcement (entering must not yield on it)
     "empty": ("", None),
     "blank": (" \t ", None),
@@ -163,7 +172,7 @@ def chunk_plan(case):
     return plan, close
 
 
-MODE_POST = {"200": "200", "evack": "202", "ackev": "202", "silence": "202", "status": "status", "exc": "exc"}
+MODE_POST = {"200": "200", "evack": "202", "ackev": "202", "silence": "202", "status": "status", "exc": "exc", "posthang": "hang"}
 
 
 def real_reqs(case):
@@ -208,15 +217,18 @@ def harness_case(case):
         "reqs": reqs, "exit": case.get("exit", {"k": "normal", "at": 50}), "pause": case.get("pause", 0),
     }
     for f in ("write_mode", "warm", "api", "params", "close_raises", "notif_post", "ctor_fails", "twin", "twin_offset", "debug_log", "close_exc",
-              "stderr", "close_write_at", "close_read_at"):
+              "stderr", "close_write_at", "close_read_at", "stream_read_timeout"):
         if f in case:
             out[f] = case[f]
     return out
 
 
 def py_key(v):
-    """str(id) as `_handle_message_event` computes it"""
-    return None if v is None else str(v)
+    """the key under which a request is pending: the id's value together with its JSON type
+    (7 and "7" name different requests)"""
+    if v is None:
+        return None
+    return ("s:" if isinstance(v, str) else "n:") + str(v)
 
 
 NON_ANSWER_200 = ("foreign", "ack", "list", "null", "number", "string", "true")
@@ -277,7 +289,7 @@ def model_req(r):
         body = r.get("body", "text")
         b = {"key": key, "ok": True} if body == "rpc" else {"key": None, "ok": True} if body == "detail" else None
     else:
-        post, b = "exc", None
+        post, b = "exc", None   # also "posthang": the client's read timeout turns it into a failed POST
     if b is not None or post == "other":
         e["b"] = b
     if order == "first":
@@ -406,7 +418,7 @@ def exit_after(case):
     at = 20
     for r in real_reqs(case):
         at = max(at, r["at"]) + r.get("d", 4) + r.get("ed", 0) + len(r.get("cuts", [])) * r.get("gap", 0) + 10
-        if acks(r) or "ed" in r:
+        if acks(r) or "ed" in r or r["mode"] == "posthang":
             at += T  # also for an answer on the event stream: were it lost, the synthesised timeout error is the terminal
     at += T * sum(1 for r in case.get("reqs", []) if r["mode"] == "rawid")
     plan, close = chunk_plan(case)
@@ -416,6 +428,9 @@ def exit_after(case):
 
 
 def finish(case):
+    for r in case.get("reqs", []):
+        if r["mode"] == "posthang":
+            r["d"] = case.get("T", T_DEFAULT)  # the POST ends when the client's read timeout (= the configured timeout) expires
     case.setdefault("exit", exit_after(case))
     return case
 
@@ -718,7 +733,7 @@ def backpressure_cases(budget, rng):
 # ------------------------------------------------------------------ hardening sweep (HARDEN.md)
 ID_POOL = [7, "7", 0, "0", "", -1, 2 ** 53 + 1, "r1", "a b", "%s %d {} {0}", "ü x\u0085", "q\"uo\\te'", "a\nb\r\nc", "x" * 5000,
            "endpoint", "session_id=1", "/mcp", "message"]
-ALL_MODES = REQ_MODES + [{"mode": "200", "body200": "nonjson"}, {"mode": "200", "body200": "empty"}]
+ALL_MODES = REQ_MODES + [{"mode": "posthang"}, {"mode": "200", "body200": "nonjson"}, {"mode": "200", "body200": "empty"}]
 ANSWERS = [
     {"kind": "result", "payload": {}},
     {"kind": "result", "payload": {"a": None, "": 0, "f": False, "l": [], "s": "", "z": 0.0}},
@@ -1012,6 +1027,7 @@ def grammar_cases(budget, rng):
 
 
 POST_KINDS = [
+    {"mode": "posthang"},                      # accepted, never answered: ends with the client's read timeout
     {"mode": "200"}, {"mode": "200", "body200": "nonjson"}, {"mode": "200", "body200": "empty"},
     {"mode": "silence"},                       # 202
     {"mode": "status", "code": 500, "body": "text"}, {"mode": "status", "code": 404, "body": "empty"},
@@ -1096,7 +1112,7 @@ def decorate(cases, suite):
     return out
 
 
-FAIL_SPECS = [{"mode": "exc"}, {"mode": "status", "code": 503, "body": "text"}, {"mode": "status", "code": 500, "body": "detail"},
+FAIL_SPECS = [{"mode": "posthang"}, {"mode": "exc"}, {"mode": "status", "code": 503, "body": "text"}, {"mode": "status", "code": 500, "body": "detail"},
               {"mode": "silence", "d": 2}, {"mode": "200", "body200": "empty"}, {"mode": "200", "body200": "ack"},
               {"mode": "exc", "exc_class": "OSError"}]
 EXC_CLASSES = ["TypeError", "ValueError", "KeyError", "IndexError", "AttributeError", "RuntimeError", "RecursionError", "OSError",
@@ -1312,4 +1328,37 @@ def environment_cases(budget, rng):
             k += 1
             out.append(finish({"T": T, "tie": TIES[k % 3], "items": [{"k": "raw", "text": "\ufeff".encode().decode("unicode_escape")}, EP], "t0": 1, "gap": 0,
                                "reqs": [mk_req(1, 3, spec, answer=ans, extra=extra), mk_req(2, 5, {"mode": "200"})]}))
+    return out
+
+
+def announced_url(case):
+    """the announced message endpoint when the announcement is an absolute http(s) URL (then it is
+    unambiguous where requests must go), else None"""
+    for it in items_of(case):
+        if it["k"] == "endpoint" and it["form"] not in NOT_ANNOUNCING:
+            d = ENDPOINT_FORMS[it["form"]][0].strip()
+            return d if d.startswith(("http://", "https://")) else None
+    return None
+
+
+def twin_id_cases(budget, rng):
+    """while a request with id "7" is pending, a message bearing 7 (the other JSON type) arrives on
+    the event stream - and the other way round: it is not that request's answer; it is delivered as
+    the server message it is, and the request still ends with its own answer"""
+    out = []
+    T = 64
+    k = 0
+    for mine, other in (("7", 7), (7, "7"), ("0", 0), (0, "0")):
+        for spec in ({"mode": "ackev", "d": 2, "ed": 30}, {"mode": "silence", "d": 2}, {"mode": "200", "d": 30}, {"mode": "posthang"},
+                     {"mode": "evack", "d": 30, "ed": 25}):
+            for shape in ("response", "request", "error"):
+                k += 1
+                if budget == "quick" and k % 2 and shape == "error":
+                    continue
+                m = {"jsonrpc": "2.0", "id": other}
+                m.update({"response": {"result": {"twin": k}}, "request": {"method": "ping"}, "error": {"error": {"code": 1, "message": "twin"}}}[shape])
+                items = [EP, {"k": "msg", "m": m, "typed": bool(k % 2)}, msg_notif(k)]
+                c = {"T": T, "tie": TIES[k % 3], "items": items, "cuts": "items", "t0": 1, "gap": 6,
+                     "reqs": [mk_req(1, 3, dict(spec), id=mine, form=("dict", "model")[k % 2]), mk_req(2, 4, {"mode": "200"}, id="after")]}
+                out.append(finish(c))
     return out
